@@ -245,7 +245,7 @@ class BodyIndex:
     def ref_fpath(self, p, depth=0):
         """field path (names, from the root object) of the location that place p denotes, following the single definitions of
         the reference locals it dereferences; () when unknown or when the whole object is meant"""
-        if depth > 8:
+        if depth > 32:
             return ()
         proj = p['p']
         path = ()
@@ -263,18 +263,35 @@ class BodyIndex:
 
     def local_fpath(self, l, depth=0):
         """field path of what the reference held in local l points at (relative to its root object)"""
-        if depth > 8 or l <= self.body.argc:
+        if depth > 32 or l <= self.body.argc:
             return ()
         ds = self.defs.get(l, [])
+        if len(ds) > 1:
+            # several definitions (the return place of a spliced helper, assigned at each of its exits): the same path from all, or unknown
+            def carries(d):
+                # the failure exits (`Err(e)`, `None`, `from_residual(..)`) hold no reference
+                (bb_, idx_, kind_, node_) = d
+                if kind_ == 'call':
+                    return not callee_decl(node_).endswith('from_residual')
+                rv_ = node_['rv']
+                return not (rv_['k'] == 'aggregate' and rv_['kind'].get('a') == 'adt' and rv_['kind'].get('variant') in ('Err', 'None', 'Break'))
+            paths = {self._def_fpath(d, depth) for d in ds if carries(d)}
+            return paths.pop() if len(paths) == 1 else ()
         if len(ds) != 1:
             return ()
-        (bb, idx, kind, node) = ds[0]
+        return self._def_fpath(ds[0], depth)
+
+    def _def_fpath(self, d, depth):
+        (bb, idx, kind, node) = d
         if kind == 'call':
             decl = callee_decl(node)
-            if (decl in PROPAGATORS or decl in TRANSPARENT) and node['args'] and node['args'][0]['k'] in ('copy', 'move'):
+            if (decl in PROPAGATORS or decl in TRANSPARENT or decl == 'std::ops::Try::branch') and node['args'] and node['args'][0]['k'] in ('copy', 'move'):
                 return self.ref_fpath_value(node['args'][0]['place'], depth + 1)
             return ()
         rv = node['rv']
+        if rv['k'] == 'aggregate' and rv['kind'].get('a') == 'adt' and rv['kind'].get('variant') in ('Ok', 'Some', 'Continue') and len(rv['ops']) == 1 \
+                and rv['ops'][0].get('k') in ('copy', 'move'):
+            return self.ref_fpath_value(rv['ops'][0]['place'], depth + 1)      # a reference handed on inside Ok(..) / Some(..)
         if rv['k'] in ('ref', 'rawptr'):
             return self.ref_fpath(rv['place'], depth + 1)
         if rv['k'] == 'copyforderef':
@@ -286,6 +303,10 @@ class BodyIndex:
     def ref_fpath_value(self, p, depth=0):
         """field path of what the reference *stored in* place p points at"""
         if p['p']:
+            ty = self.body.local_ty(p['l'])
+            if all(e['k'] in ('downcast', 'field') for e in p['p']) and any(e['k'] == 'downcast' for e in p['p']) \
+                    and ty.startswith(('std::result::Result<', 'std::option::Option<', 'std::ops::ControlFlow<')):
+                return self.local_fpath(p['l'], depth)      # the payload of Ok(..) / Some(..) / Continue(..): the wrapper is transparent
             # a pointer read out of a field: what it points at is attributed to that field
             return self.ref_fpath(p, depth)
         return self.local_fpath(p['l'], depth)
